@@ -43,7 +43,8 @@ LIBVER = (1, 2, 1)
 
 PVALS = {"int": [3, -4, 5], "float": [1.5, -0.25, 8.0], "text": ["a", "ü", "long text"], "bool": [True, False, True]}
 FORESTS = [[("s", [])], [("s", [("s", [])])], [("s", []), ("Z", [])], [("s", [("a", []), ("s", [])])]]
-EXTRAS = ["none", "uncertainty-uniform", "uncertainty-per-value", "reference", "file-encoder-checksum"]
+EXTRAS = ["none", "uncertainty-uniform", "uncertainty-per-value", "reference", "file-encoder-checksum", "mixed"]
+MIXED = ["reference", "none", "file-encoder-checksum", "uncertainty-per-value", "none"]
 
 
 def sha(path):
@@ -161,6 +162,13 @@ def build(path, cfg):
     return snap
 
 
+def extra_of(cfg, pname):
+    """the extras variant of one property ('mixed': it differs from property to property)"""
+    if cfg["extra"] != "mixed":
+        return cfg["extra"]
+    return MIXED[int(pname[1]) % len(MIXED)]
+
+
 def extras_for(extra, n, i):
     unc, ref, fn, enc, chk = 0.0, "", "", "", ""
     if extra == "uncertainty-uniform":
@@ -193,7 +201,7 @@ def to_old(path, cfg):
                                 ("encoder", VSTR), ("checksum", VSTR)])
                 arr = np.zeros(len(vals), dtype=cdt)
                 for i, v in enumerate(vals):
-                    arr[i] = (v,) + extras_for(cfg["extra"], len(vals), i)
+                    arr[i] = (v,) + extras_for(extra_of(cfg, name.split("/")[-1]), len(vals), i)
                 parent = ds.parent
                 nm = name.split("/")[-1]
                 del parent[nm]
@@ -277,7 +285,13 @@ def check_content(r, path, cfg, snap, stage):
                 return bad("property-unit-definition", "%s unit/definition %r/%r, before %r/%r" % (key, p.unit, p.definition, exp["unit"], exp["definition"]))
             n = len(exp["values"])
             if tuple(cfg["ver"]) < (1, 1, 1):
-                ex = cfg["extra"]
+                ex = extra_of(cfg, pname)
+                # exactly the expected derived properties, no others
+                suffixes = {"uncertainty-per-value": [".uncertainty"] if n > 1 else [], "reference": [".reference"],
+                            "file-encoder-checksum": [".filename", ".encoder", ".checksum"]}.get(ex, [])
+                present = [q.name[len(pname):] for q in sec.props if q.name.startswith(pname + ".")]
+                if sorted(present) != sorted(suffixes):
+                    return bad("spurious-or-missing-extra-properties", "%s (%s): derived properties %r, expected %r" % (key, ex, sorted(present), sorted(suffixes)))
                 if ex == "uncertainty-uniform":
                     if p.uncertainty != 0.5:
                         return bad("extra-uncertainty-lost", "%s uncertainty %r, before 0.5 for every value" % (key, p.uncertainty))
